@@ -10,7 +10,14 @@ verus! {
 // context shells (D5)
 pub struct Worksheet { pub sheet_id: u32, pub rest: WorksheetRest }
 pub struct Workbook { pub worksheets: Vec<Worksheet>, pub defined_names: Vec<DefinedName>, pub rest: WorkbookRest }
-pub struct Model { pub workbook: Workbook, pub rest: ModelRest }
+#[verifier::external_body] pub struct ParsedNames { _o: u8 }
+impl ParsedNames {
+    /// `self.parsed_defined_names.keys()` (HashMap keys are outside Verus): some list of (scope, name) keys
+    #[verifier::external_body] pub fn keys(&self) -> Vec<(Option<u32>, String)> { unimplemented!() }
+}
+#[verifier::external_body] pub struct Parser { _o: u8 }
+#[verifier::external_body] pub struct LexerMode { _o: u8 }
+pub struct Model { pub workbook: Workbook, pub parsed_defined_names: ParsedNames, pub parser: Parser, pub rest: ModelRest }
 pub uninterp spec fn upper(s: Seq<char>) -> Seq<char>;
 pub assume_specification [str::to_uppercase] (s: &str) -> (r: String) ensures r@ == upper(s@);
 #[verifier::external_body]
@@ -24,7 +31,29 @@ impl Workbook {
 pub open spec fn scope_id(m: &Model, scope: Option<u32>) -> Option<u32> {
     match scope { Some(i) => Some(m.workbook.worksheets@[i as int].sheet_id), None => None }
 }
+#[verifier::external_body] pub fn is_valid_identifier(name: &str) -> bool { unimplemented!() }
+/// `.map_err(|_| "Scope: Invalid sheet index")?`: the error text is replaced, Ok passes through
+pub trait VerifScopeErr<T> { fn verif_scope_err(self) -> (r: Result<T, String>); }
+impl<'a> VerifScopeErr<&'a Worksheet> for Result<&'a Worksheet, String> {
+    #[verifier::external_body]
+    fn verif_scope_err(self) -> (r: Result<&'a Worksheet, String>) ensures r.is_ok() == self.is_ok(), r.is_ok() ==> r.unwrap() == self.unwrap() { unimplemented!() }
+}
+/// `<Vec>.get_mut(i)` (documented std behaviour): Some(&mut element i) iff i is in range; when the borrow ends the vector is the old one with element i
+/// replaced by the final value; None leaves it alone
+#[verifier::external_body]
+pub fn vec_get_mut<T>(v: &mut Vec<T>, i: usize) -> (r: Option<&mut T>)
+    ensures (i as int) < old(v)@.len() ==> r is Some && *r.unwrap() == old(v)@[i as int] && final(v)@ == old(v)@.update(i as int, *final(r.unwrap())),
+        (i as int) >= old(v)@.len() ==> r is None && final(v)@ == old(v)@
+{ v.get_mut(i) }
 pub open spec fn is_entry(d: DefinedName, name: Seq<char>, sheet_id: Option<u32>) -> bool { upper(d.name@) == upper(name) && d.sheet_id == sheet_id }
+/// ASSUMED (D6: the two nested loops abstracted into one call): the rewriting of every sheet's shared formulas with the old name and scope (the call
+/// inside is under contract in unit renamedn) keeps the number of sheets and every sheet id; it is handed the parser and the sheets only, so the
+/// defined names are out of its reach (frame by construction)
+#[verifier::external_body]
+pub fn rename_in_all_formulas(parser: &mut Parser, worksheets: &mut Vec<Worksheet>, name: &str, scope: Option<u32>, new_name: &str)
+    ensures final(worksheets)@.len() == old(worksheets)@.len(),
+        forall|k: int| 0 <= k < old(worksheets)@.len() ==> (#[trigger] final(worksheets)@[k]).sheet_id == old(worksheets)@[k].sheet_id,
+{ unimplemented!() }
 impl Model {
     // ASSUMED: validation, formula conversion and the re-parse of the workbook's structures do not touch the workbook's stored data
 //@stub base/src/model.rs Model::is_valid_defined_name
@@ -60,6 +89,58 @@ impl Model {
 //@rewrite `let mut index = None;` => `let mut index: Option<usize> = None;`
 //@forwhile 1
 //@loop 1
+            invariant __i <= defined_names@.len(), defined_names@ == old(self).workbook.defined_names@, self.workbook == old(self).workbook,
+                index matches Some(j) ==> j < defined_names@.len() && is_entry(defined_names@[j as int], name@, sheet_id),
+            decreases defined_names@.len() - __i
+//@end
+
+    /// the sheet index a sheet id belongs to now, None when no sheet has it (uninterpreted: the lookup is not under contract here)
+    pub uninterp spec fn index_of_id(&self, sid: u32) -> Option<u32>;
+    #[verifier::external_body]
+    pub fn get_sheet_index_by_sheet_id(&self, sheet_id: u32) -> (r: Option<u32>) ensures r == self.index_of_id(sheet_id) { unimplemented!() }
+    /// the scope resolution step of parse_defined_names (one iteration of its loop; `continue` = the entry is skipped = None here): a sheet-local
+    /// name whose sheet is gone is NEVER registered as a global name, a global name stays global, a local name gets its sheet's current index
+    pub fn parse_defined_names_scope(&self, sheet_id: Option<u32>) -> (r: Option<Option<u32>>)
+        ensures r == (match sheet_id {
+            None => Some(None::<u32>),
+            Some(sid) => match self.index_of_id(sid) { Some(idx) => Some(Some(idx)), None => None },
+        })
+    {
+        let mut __first = true;
+        while __first
+            invariant __first || (sheet_id matches Some(sid) && self.index_of_id(sid) is None)
+            decreases (if __first { 1int } else { 0int })
+        {
+            __first = false;
+//@fragment base/src/new_empty.rs Model::parse_defined_names `let local_sheet_index =` ..< `parsed_defined_names.insert(`
+//@end
+            return Some(local_sheet_index);
+        }
+        None
+    }
+//@fn base/src/model.rs Model::update_defined_name
+//@attr
+#[verifier::loop_isolation(false)]
+//@spec
+    ensures r.is_err() ==> final(self).workbook == old(self).workbook,
+        // exactly the entry (name, scope) is replaced — new name, the NEW scope's sheet id — and every other defined name stays as it was
+        r.is_ok() ==> exists|i: int| 0 <= i < old(self).workbook.defined_names@.len()
+            && #[trigger] is_entry(old(self).workbook.defined_names@[i], name@, scope_id(old(self), scope))
+            && final(self).workbook.defined_names@.len() == old(self).workbook.defined_names@.len()
+            && final(self).workbook.defined_names@[i].name@ == new_name@
+            && final(self).workbook.defined_names@[i].sheet_id == scope_id(old(self), new_scope)
+            && (forall|j: int| 0 <= j < old(self).workbook.defined_names@.len() && j != i ==> final(self).workbook.defined_names@[j] == old(self).workbook.defined_names@[j]),
+//@rewrite `) -> Result<(), String> {` => `) -> (r: Result<(), String>) {`
+//@rewrite `let mut index = None;` => `let mut index: Option<usize> = None;`
+//@rewrite `for key in self.parsed_defined_names.keys() {` => `let __keys = self.parsed_defined_names.keys(); for key in __it: __keys.iter() {`
+//@rewritex2 `.map_err(|_| "Scope: Invalid sheet index")?` => `.verif_scope_err()?`
+//@rewrite `self.workbook.defined_names.get_mut(i)` => `vec_get_mut(&mut self.workbook.defined_names, i)`
+//@rewrite `self.parser.set_lexer_mode(LexerMode::R1C1);` => `rename_in_all_formulas(&mut self.parser, &mut self.workbook.worksheets, name, scope, new_name);`
+//@dropstmt `let worksheets = &mut self.workbook.worksheets;`
+//@dropstmt `for worksheet in worksheets {`
+//@rewrite `df.name = new_name.to_string();` => `df.name = shim_to_string(new_name);`
+//@forwhile 2
+//@loop 2
             invariant __i <= defined_names@.len(), defined_names@ == old(self).workbook.defined_names@, self.workbook == old(self).workbook,
                 index matches Some(j) ==> j < defined_names@.len() && is_entry(defined_names@[j as int], name@, sheet_id),
             decreases defined_names@.len() - __i
